@@ -191,7 +191,8 @@ func (p *Propagator) beaconsPerInterface(
 // shouldIgnore indicates whether a beacon should not be sent on the egress
 // interface because it creates a loop.
 func (p *Propagator) shouldIgnore(bseg beacon.Beacon, intf *ifstate.Interface) bool {
-	if err := beacon.FilterLoop(bseg, intf.TopoInfo().IA, p.AllowIsdLoop); err != nil {
+	err := beacon.FilterLoopVia(bseg, p.IA, intf.TopoInfo().IA, p.AllowIsdLoop)
+	if err != nil {
 		return true
 	}
 	return false
